@@ -226,6 +226,9 @@ func c06JSONDocs(maxFields int) []string {
 		if len(parts) > 0 {
 			docs = append(docs, "{ "+strings.Join(parts, " , ")+" }\n")
 		}
+		if len(parts) == 1 {
+			docs = append(docs, " \n\t{"+strings.Join(parts, ",")+"}")
+		}
 		if len(parts) == maxFields {
 			return
 		}
@@ -335,7 +338,7 @@ func c06Run(r *vkit.Run) {
 	}
 	// regexp: named captures over delimiter-separated words
 	words := []string{"GET", "x1", "é", ""}
-	for _, pat := range []string{`(?P<a>\w+) (?P<b>\w+)`, `^(?P<a>[^ ]*) (?P<z>[^ ]*)$`, `(?P<a>\w+)`, `(\w+) (?P<b>\w+)`} {
+	for _, pat := range []string{`(?P<a>\w+) (?P<b>\w+)`, `^(?P<a>[^ ]*) (?P<z>[^ ]*)$`, `(?P<a>\w+)`, `(\w+) (?P<b>\w+)`, `^(\w+)( (?P<b>\w+))?`, `(?P<a>G)|(?P<b>x)`, `(\w)(\w)(?P<b>\w)`} {
 		for _, w1 := range words {
 			for _, w2 := range words {
 				for _, pre := range []bool{false, true} {
